@@ -636,7 +636,10 @@ def bounded_mutants_selftest(P, scratch):
         shutil.rmtree(root, ignore_errors=True)
         if not br["ran"]:
             return j, "harness did not run on the mutant: " + br.get("note", "")[:200]
-        return j, (None if br["failures"] else "harness finds nothing")
+        # failures that the unchanged tree shows as well (KNOWN_FINDINGS.txt `finding:` lines) do not count as killing the mutant
+        known = set((k.get("obligation") or "").replace("~bounded", "") for k in known_findings())
+        real = [f for f in br["failures"] if f.get("clause") not in known]
+        return j, (None if real else "harness finds nothing (beyond the recorded known findings)")
     applied = killed = 0
     missed = []
     with cf.ThreadPoolExecutor(max_workers=4) as ex:
